@@ -2,6 +2,7 @@
 //!   verif_replay <unit> find [args]      -> search small inputs for a spec violation on the real code
 //!   verif_replay <unit> replay <json>    -> re-run one recorded witness
 //! Output: one JSON object per line on stdout.
+mod u1;
 mod u10;
 mod u2;
 mod u3;
@@ -18,6 +19,9 @@ fn main() {
   let code = match (args[1].as_str(), args[2].as_str()) {
     ("u3", "find") => u3::find(rest),
     ("u3", "replay") => u3::replay(rest),
+    ("u1", "find") => u1::find(rest),
+    ("u1", "replay") => u1::replay(rest),
+    ("u1", "raw") => u1::raw(rest),
     ("u2", "find") => u2::find(rest),
     ("u2", "replay") => u2::replay(rest),
     ("u10", "find") => u10::find(rest),
